@@ -200,7 +200,7 @@ PROPS = {
                     "decidable AStmtOK; the model renders generated statement lists under seeded layouts and the real parser reads that very text "
                     "on every run (driver op amp_render_layout); the Lark engine itself is modelled, not verified",
                     "exp(i phase) is not modelled: couplings stay symbolic (interpretation flag + the two numerals); the harness compares the "
-                    "complex numbers to 1e-12", "particle_from_string_name is an oracle parameter (sent with each operation)"],
+                    "complex numbers to 1e-12", "particle_from_string_name is an oracle parameter of the model (sent with each operation); which particle an AmpGen spelling denotes is compared with the pinned table pinned/ampgen_names.json (859 spellings observed on the unchanged tree) on every run"],
         "assumptions": ["fix flags are integers (AmpGen convention 0/1/2)"],
         "gen_obligations": ["C17_policy is decided over the reset policy regenerated from amplitudechain.py"],
     },
